@@ -683,6 +683,13 @@ def c18_case(cid, base, args, damage, outs=(), stale=(), tags=()):
             "sexp": sexp.dump(x), "cmd": "cd <pkgdir> && shoot " + " ".join(args), "tags": [damage] + list(tags), "pcmd": base["cmd"]}
 
 
+TAGCASE_VALID = ["pascal", "camel", "lower", "upper"]
+TAGCASE_NEAR = TAGCASE_VALID + ["Camel", "CAMEL", "camel_", "cAmel", "", "kebab", " camel", "camel ", "Pascal", "snake", "UPPER", "lowercase"]
+WAY_VALID = ["toonly", "fromonly", "both", "->", "<-", "<->"]
+WAY_NEAR = WAY_VALID + ["toOnly", "->>", "BOTH", "<- >", "", "to", "FromOnly", "<>", "=>", "both "]
+BOOL_VALID = ["true", "false", "1", "0", "t", "f", "T", "F", "TRUE", "FALSE", "True", "False"]
+BOOL_NEAR = ["true", "0", "T", "False", "maybe", "yes", "no", "2", "", "tRUE", "on", " true"]
+
 TOKEN_RE = re.compile(r'//[^\n]*|`[^`]*`|"(?:[^"\\\n]|\\.)*"|[A-Za-z_][A-Za-z0-9_]*|\d+|[^\sA-Za-z0-9_]')
 
 
@@ -814,6 +821,23 @@ def damage_cases(rng, quick=True):
     sub(b, "a.go", "AddUser(ctx context.Context, u *User)", "AddUser(u *User)")
     add(b, ["rest", "-type=Client"], "formatFail", tags=["mixed ctx / no-ctx methods"])
 
+    # ---- flag VALUES near the valid ones, together with the flags that make the value matter ----
+    for v in TAGCASE_NEAR:
+        add(base_new(), ["new", "-json", "-tagcase=" + v, "-type=User"], "none" if v in TAGCASE_VALID else "badFlagValue",
+            outs=["x"] if v in TAGCASE_VALID else [], tags=["flag-value -tagcase"])
+        add(base_new(), ["new", "-getset", "-json", "-opt", "-tagcase", v, "-file=a.go"], "none" if v in TAGCASE_VALID else "badFlagValue",
+            outs=["x"] if v in TAGCASE_VALID else [], tags=["flag-value -tagcase"])
+    for v in WAY_NEAR:
+        add(base_map(), ["map", "-path=../dest", "-way=" + v, "-type=Order"], "none" if v in WAY_VALID else "badFlagValue",
+            outs=["x"] if v in WAY_VALID else [], tags=["flag-value -way"])
+    for cmd, flag in [("new", "-json"), ("new", "-getset"), ("new", "-opt"), ("new", "-short"), ("new", "-exp"), ("enum", "-bit"),
+                      ("enum", "-json"), ("enum", "-text"), ("enum", "-sql"), ("map", "-i"), ("rest", "-sep"), ("rest", "-v"), ("rest", "-raw")]:
+        B = BASES[cmd]
+        for v in BOOL_NEAR:
+            ok = v in BOOL_VALID
+            add(B(), [cmd] + [f for f in B()["flags"] if not f.startswith(flag)] + ["%s=%s" % (flag, v), "-type=" + B()["good"][0]],
+                "none" if ok else "badFlagValue", outs=["x"] if ok else [], tags=["flag-value bool"])
+
     npred = len(cases)
     # ---- unpredicted: shoot does not look at these (type errors, odd directives); only the property is evaluated ----
     U = []
@@ -889,6 +913,23 @@ def damage_cases(rng, quick=True):
         sub(b, fname, old, new)
         un(b, ["map", "-path=../dest", "-type=Order,User"], tag)
         un(b, ["map", "-path=../dest", "-i", "-alias=d", "-type=*"], tag + " (-type=*)")
+    # odd values of the free-text flags: shoot has no rule for them, only the property is evaluated
+    for v in ["", "1x", "a-b", "_", "dest", "func", "a b", "d.e"]:
+        un(base_map(), ["map", "-path=../dest", "-alias=" + v, "-type=Order,User"], "flag-value -alias")
+    for v in ["", ",", "Missing", "Order,", ",User", "Order,User,Order", "order,user", "*", "Order, User"]:
+        un(base_map(), ["map", "-path=../dest", "-type=Order,User", "-to=" + v], "flag-value -to")
+    for v in ["", ".", "../dest/", "../dest/../dest", "..//dest", "../src", "../dest/d.go", "dest", "~/dest"]:
+        un(base_map(), ["map", "-path=" + v, "-type=Order"], "flag-value -path")
+    for cmd in CMDS:
+        B = BASES[cmd]
+        g0 = B()["good"][0]
+        for v in [",", g0 + ",", "," + g0, " " + g0, g0 + " ", "*,*", g0 + ",*", g0.lower(), g0 + "," + g0, "**", "."]:
+            un(B(), [cmd] + B()["flags"] + ["-type=" + v], "flag-value -type")
+        for v in ["./a.go", "../%s/a.go" % ("src" if cmd == "map" else "."), "A.GO", "a.go/", ".go", "a.go,b.go", " a.go"]:
+            un(B(), [cmd] + B()["flags"] + ["-file=" + v], "flag-value -file")
+        for v in ['x"y', "v1\nv2", "*/", "`", "\\", "%s%d", "v0.7.0) DO NOT EDIT. (", ""]:
+            un(B(), [cmd] + B()["flags"] + ["-ver=" + v, "-type=" + g0], "flag-value -ver")
+            un(B(), [cmd] + B()["flags"] + ["-version", v, "-type=*"], "flag-value -version")
     # token deletion: every token of the hand-written files of each base (quick: every 3rd)
     for cmd in CMDS:
         b0 = BASES[cmd]()
